@@ -20,7 +20,7 @@ ASSUMPTIONS = [
     'SBML sub-domain: generated linear PKPD models (dosed, fixed parameters) through the reference integrator vf/simshim.py; '
     'oracle = complex step through the closed-form solution (matrix exponential)']
 REQUIRED = ['indiv', 'hier', 'sbml', 'dosed', 'sbml_fixed', 'posterior', 'nonfinite', 'cov', 'red', 'noncentered', 'kind:pooled',
-            'kind:hetero', 'unmeasured_output_first', 'negative_outputs', 'sbml_all_mech_fixed']
+            'kind:hetero', 'unmeasured_output_first', 'negative_outputs', 'sbml_all_mech_fixed', 'sbml_nothing_measured']
 
 
 @st.composite
@@ -50,6 +50,11 @@ def _spec(draw):
         tmax = max(t for ts in times for t in ts)
         f = min(1.0, 8.0 / max(R * tmax, 1e-9))
         times = [[gen.r6(t * f) for t in ts] for ts in times]
+        if gen.chance(draw, 0.1):
+            # outputs without any measurement; now and then no measurement at all (the likelihood the problem
+            # controller builds for an individual whose measurements are all missing)
+            for o in (range(n_out) if gen.chance(draw, 0.5) else [draw(st.integers(0, n_out - 1))]):
+                times[o] = []
         obs = [draw(gen.vec(gen.logu(0.05, 5.0), len(t))) for t in times]
         ll = dict(n_out=n_out, n_par=len(names), ems=ems, times=times, obs=obs, tmode=mode, tied=tied)
         params = theta + draw(gen.vec(gen.logu(0.1, 2.0), sum(llbuild.ll_n_sigma(ll))))
@@ -134,13 +139,17 @@ def classify(spec):
             labs.append('sbml_fixed')
             if len(spec['fixed']) == spec['ll']['n_par']:
                 labs.append('sbml_all_mech_fixed')
+        if not any(spec['ll']['times']):
+            labs.append('sbml_nothing_measured')
     else:
         if spec['ll']['n_out'] > 1:
             labs.append('multi_output')
         if spec['ll']['tied']:
             labs.append('tied')
         tl = spec['ll']['times']
-        if any(len(t) == 0 for t in tl) and min(o for o in range(len(tl)) if tl[o]) > 0:
+        if not any(tl):
+            labs.append('nothing_measured')
+        elif any(len(t) == 0 for t in tl) and min(o for o in range(len(tl)) if tl[o]) > 0:
             labs.append('unmeasured_output_first')
         if spec.get('signed'):
             labs.append('negative_outputs')
@@ -196,7 +205,7 @@ def check(case):
                 obj.fix_parameters({names[i]: float(v) for i, v in fixed.items()})
             free = [i for i in range(len(full)) if i not in fixed]
             x = full[free]
-            tmax = max(t for ts in ll['times'] for t in ts)
+            tmax = max([t for ts in ll['times'] for t in ts] + [1.0])
             ev = []
             if s['reg'] is not None:
                 r = s['reg']
